@@ -7,6 +7,7 @@ from ..poly import PathEval, fmt, atom, const, padd, pmul
 from ..loader import AnalysisError, norm_stmt, walk_own
 from .common import add_checks, calls_in
 from .common import check as ob
+from ..canon import Canon, each
 
 EXPLANATION = (
     'The relation between the ion series is linear: every ion mass is the sum over its span\'s residue components '
@@ -97,7 +98,7 @@ def build_fragments_bindings(ctx, rep, clause):
                                            _assigned_from_sum(f, first.id)):
             # the neutral per-span base: sum(mass_components[span[0]:span[1]])
             e = first if isinstance(first, ast.Call) else _assigned_from_sum(f, first.id)
-            base_ok = _is_span_sum(e)
+            base_ok = _is_span_sum(e, (each('spans')(Canon(f.node)) or ['span'])[0])
             ob(rep, 'KIND', BUILD, 'span base is sum(mass_components[span[0]:span[1]])', base_ok,
                'a residue contributes iff start <= index < stop',
                f'the base mass is {norm_stmt(e) if e is not None else "?"}: a modification would no longer '
@@ -128,7 +129,7 @@ def _assigned_from_sum(f, name):
     return None
 
 
-def _is_span_sum(e) -> bool:
+def _is_span_sum(e, span_name='span') -> bool:
     if not (isinstance(e, ast.Call) and isinstance(e.func, ast.Name) and e.func.id == 'sum' and e.args):
         return False
     a = e.args[0]
@@ -138,7 +139,7 @@ def _is_span_sum(e) -> bool:
     lo, up = a.slice.lower, a.slice.upper
 
     def is_span(x, i):
-        return isinstance(x, ast.Subscript) and isinstance(x.value, ast.Name) and x.value.id == 'span' and \
+        return isinstance(x, ast.Subscript) and isinstance(x.value, ast.Name) and x.value.id == span_name and \
             isinstance(x.slice, ast.Constant) and x.slice.value == i
     return is_span(lo, 0) and is_span(up, 1) and a.slice.step is None
 
